@@ -218,6 +218,9 @@ def run(ctx):
         "windowed_brute_force_items": wn.counters.get("window_items", 0),
         "windowed_brute_force_executions": wn.n,
         "search_audits": au.n,
+        "v3_client_decoder_items": acc.counters.get("v3_client_items", 0),
+        "v3_client_decoder_items_with_a_read_boundary_at_each_of_the_23_positions_inside_the_version_marker":
+            acc.counters.get("v3_client_items_cut_at_every_marker_byte", 0),
         "distinct_nontrivial": len(acc.nontrivial),
         "distinct_outcome_classes": len(acc.outcomes),
         "rule": "one case = one (harness, message, following bytes); non-trivial = at least 2 bytes on the wire (more than one segmentation)",
